@@ -54,6 +54,34 @@ def helper_scalars(db, call):
     f = db.hir.get(callee(call) or "") if db is not None else None
     if f is None or call.get("k") != "Call":
         return None
+    # `helper(&[("a", 32), ("b", 32)])`: one table of (name, width) pairs, each turned into il::scalar(name, width)
+    if len(call["args"]) == 1 and len(f.get("params", [])) == 1:
+        arr = [x for x in walk(call["args"][0]) if x.get("k") == "Array"]
+        rows = []
+        for e in (arr[0].get("es", []) if arr else []):
+            u = unq(e)
+            if u.get("k") == "Tup" and len(u.get("es", [])) == 2 and str_lit(u["es"][0]) is not None and int_lit(u["es"][1]) is not None:
+                rows.append((str_lit(u["es"][0]), int_lit(u["es"][1])))
+            else:
+                rows = None
+                break
+        made = [x for x in walk(f["body"]) if callee(x) in ("il::scalar", "il::expr_scalar") and x.get("k") == "Call" and len(x["args"]) == 2]
+        if rows and len(made) == 1 and not any(y.get("k") == "Lit" for a_ in made[0]["args"] for y in walk(a_)):
+            # both arguments of the one il::scalar call are bindings of the destructured element, in (name, width) order
+            from db import all_patterns, pat_bindings
+            order = {}
+            for pt in all_patterns(f["body"]):
+                for nm_, hid_, pos_ in pat_bindings(pt):
+                    if pos_ and pos_[-1] in (0, 1):
+                        order[hid_] = pos_[-1]
+            a0, a1 = unq(made[0]["args"][0]), unq(made[0]["args"][1])
+            while a0.get("k") in ("Unary", "AddrOf") and "e" in a0:
+                a0 = unq(a0["e"])
+            while a1.get("k") in ("Unary", "AddrOf") and "e" in a1:
+                a1 = unq(a1["e"])
+            if order.get(a0.get("res", {}).get("hid")) == 0 and order.get(a1.get("res", {}).get("hid")) == 1:
+                kind = "set" if "HashSet" in (f.get("output") or "") else "list"
+                return (kind, rows)
     names = bits = None
     for i, a in enumerate(call["args"]):
         arr = [x for x in walk(a) if x.get("k") == "Array"]
